@@ -183,6 +183,11 @@ def fresh_digests(pid, seeds, tier):
 # ----------------------------------------------------------------------------- main
 
 def main(argv=None):
+    # the local time zone is an input of utype's date conversions (a naive datetime.max has a timestamp in one zone and
+    # overflows in another): the simulator owns that seam and fixes it; the fresh-interpreter self-test is started under
+    # another TZ to show that the pin holds
+    os.environ["TZ"] = "UTC"
+    time.tzset()
     ap = argparse.ArgumentParser()
     ap.add_argument("prop")
     ap.add_argument("--tier", default=os.environ.get("VERIF_TIER", "quick"), choices=["quick", "thorough"])
